@@ -168,6 +168,90 @@ func itoa(n int64) string { return constant.MakeInt64(n).String() }
 // alone. Either the object is allocated in the function, or — when it comes from anywhere else (a free list, a pool, a
 // field) — every field of it is assigned on every path: a recycled object otherwise keeps the key, ack inbox, correlation id,
 // ack policy or expected offset of an earlier message, and a raw payload is stored with them.
+// ruleRecycledMessagesAreRefilled (R14.4 extension): wherever the server fills a commit log Message it did not allocate on the
+// spot — one handed in, taken from a free list, answered by a helper — every field is assigned on every path between getting
+// hold of the object and handing it on. A field that only the envelope branch assigns keeps, for a raw payload, what the
+// previous publish put there.
+func ruleRecycledMessagesAreRefilled(c *eng.Ctx) {
+	p := c.P
+	valField := p.Field("server/commitlog", "Message", "Value")
+	if valField == nil {
+		c.Unresolved("field server/commitlog.Message.Value")
+		return
+	}
+	st, ok := valField.Pkg().Scope().Lookup("Message").Type().Underlying().(*types.Struct)
+	if !ok {
+		c.Unresolved("struct server/commitlog.Message")
+		return
+	}
+	seen := 0
+	for _, fn := range p.Funcs {
+		if fn.Pkg == nil || fn.Pkg.Pkg.Path() != ir.ModulePath+"/server" || ir.FuncKey(fn) == "server.natsToProtoMessage" {
+			continue
+		}
+		bases := map[ssa.Value]bool{}
+		for _, s := range eng.FieldStores(fn, func(fa *ssa.FieldAddr) bool { return fieldIs(fa, valField) }) {
+			seen++
+			base := eng.Strip(s.Addr.(*ssa.FieldAddr).X)
+			if al, fresh := base.(*ssa.Alloc); fresh && al.Heap {
+				continue
+			}
+			// a value that is not sealed / converted in place: only objects that are FILLED here matter, i.e. the raw payload
+			// or a decoded field is stored; `m.Value = encrypted` on a message natsToProtoMessage just built is not a fill
+			if call := eng.AsCall(base); call != nil && eng.CalleeRef(&call.Call) == "server.natsToProtoMessage" {
+				continue
+			}
+			bases[base] = true
+		}
+		for base := range bases {
+			def, isInstr := base.(ssa.Instruction)
+			handsOn := func(x ssa.Instruction) bool {
+				if x == def {
+					return false
+				}
+				switch y := x.(type) {
+				case *ssa.Return:
+					return true
+				case ssa.CallInstruction:
+					for _, a := range y.Common().Args {
+						if eng.Strip(a) == base {
+							return true
+						}
+					}
+				case *ssa.Store:
+					if eng.Strip(y.Val) == base {
+						return true
+					}
+				}
+				return false
+			}
+			missing := ""
+			for i := 0; i < st.NumFields(); i++ {
+				f := st.Field(i)
+				set := func(x ssa.Instruction) bool {
+					s, isSt := x.(*ssa.Store)
+					if !isSt {
+						return false
+					}
+					fa, isFA := s.Addr.(*ssa.FieldAddr)
+					return isFA && fieldIs(fa, f) && eng.Strip(fa.X) == base
+				}
+				q := &eng.PathQuery{Fn: fn, Target: handsOn, CutInstr: set}
+				if isInstr {
+					q.FromAfter = []ssa.Instruction{def}
+				} else {
+					q.FromEntry = true
+				}
+				if w := q.Find(); w != nil {
+					missing += " " + f.Name()
+				}
+			}
+			c.Check(missing == "", "a message object that is filled in "+fn.Name()+" without being allocated there has every field assigned", p.Pos(fn.Pos()), "every field of commitlog.Message is stored on every path from obtaining the object to handing it on", fn.Name()+" fills a commit log message it did not allocate ("+eng.Describe(base)+") and leaves field(s)"+missing+" untouched on some path: a recycled message keeps what an earlier publish put there — a raw payload is acked to a stranger's inbox with a stranger's correlation id, or checked against a stranger's expected offset")
+		}
+	}
+	_ = seen
+}
+
 func ruleStoredMessageIsFresh(c *eng.Ctx) {
 	p := c.P
 	fn := c.Fn("server.natsToProtoMessage")
